@@ -2,6 +2,7 @@ package sim
 
 import (
 	"fmt"
+	"github.com/fxamacker/cbor/v2"
 	"math"
 	"sort"
 
@@ -230,7 +231,9 @@ func genLayer(t *tape.Tape, o LayerOpts) Layer {
 	if o.Tagged {
 		for i, n := 0, 1+t.Choose(2, "hdr.tagged.n"); i < n; i++ {
 			var v *refcbor.Item
-			switch t.Choose(5, "hdr.tagged.kind") {
+			switch t.Choose(6, "hdr.tagged.kind") {
+			case 5:
+				v = genBignum(t)
 			case 0:
 				v = refcbor.Tag(1, refcbor.Int(int64(t.Choose(1<<30, "hdr.tagged.epoch"))))
 			case 1:
@@ -405,6 +408,8 @@ func itemToGo(it *refcbor.Item, sp Spelling, isLabel bool) any {
 			out[itemToGo(it.Elems[2*i], sp, true)] = itemToGo(it.Elems[2*i+1], sp, false)
 		}
 		return out
+	case refcbor.MTag:
+		return cbor.Tag{Number: it.Arg, Content: itemToGo(it.Elems[0], sp, false)}
 	case refcbor.MSimple:
 		switch {
 		case it.Width == 8:
@@ -521,4 +526,24 @@ func min(a, b int) int {
 		return a
 	}
 	return b
+}
+
+// genBignum is a CBOR bignum (tag 2 or 3, RFC 8949 section 3.4.3), biased to
+// the 8-byte contents around the int64/uint64 boundaries.
+func genBignum(t *tape.Tape) *refcbor.Item {
+	var b []byte
+	switch t.Choose(4, "bignum.kind") {
+	case 0:
+		b = t.Bytes(8, "bignum.8")
+		b[0] |= 0x80 // above int64, within uint64
+	case 1:
+		b = t.Bytes(8, "bignum.8")
+		b[0] &= 0x7f
+	case 2:
+		b = t.Bytes(9+t.Choose(8, "bignum.n"), "bignum.big")
+		b[0] |= 1
+	default:
+		b = t.Bytes(t.Choose(9, "bignum.n"), "bignum.small")
+	}
+	return refcbor.Tag(uint64(2+t.Choose(2, "bignum.neg")), refcbor.Bstr(b))
 }
